@@ -16,6 +16,10 @@ def respond (line : String) : List String :=
     match parseWire (" ".intercalate rest) with
     | .error m => [s!"bad-request {m}"]
     | .ok r => wireFacts entry r
+  | "skel" :: rest =>
+    match parseSkel (" ".intercalate rest) with
+    | .error m => [s!"bad-request {m}"]
+    | .ok r => skelFacts r
   | _ => ["bad-request unknown"]
 
 partial def loop (h : IO.FS.Stream) (out : IO.FS.Stream) : IO Unit := do
